@@ -817,9 +817,28 @@ pub fn run(ctx: &mut Ctx) {
     ctx.replay_known_and_regressions(&replay);
     let t = ctx.tier;
     ctx.run_prop("library", t.pick(200_000, 5_000_000), || crate::gen::tape(1600).prop_map(gen_lib), judge_lib);
+    let deep: Vec<LibCase> = [(1000usize, "/0'"), (100_000, "/0'"), (3000, "/2")]
+        .iter()
+        .map(|(n, comp)| LibCase { entry: "path".into(), input_hex: hex_lower(format!("m{}", comp.repeat(*n)).as_bytes()), origin: "valid".into() })
+        .collect();
+    ctx.run_cases("library", &deep, judge_lib);
     if CLI.get().map(|p| p.exists()).unwrap_or(false) {
         ctx.shrink_iters = 150;
         ctx.run_prop("cli", t.pick(5000, 30_000), || crate::gen::tape(1200).prop_map(gen_cli), judge_cli);
+        // very deep derivation paths (no depth bound is stated for paths): a derivation written recursively runs
+        // out of stack; 40000 components still fit into one argument
+        let phrase = bip39::encode_phrase(&[0x33u8; 16]);
+        let deep_cli: Vec<CliCase> = [(300usize, "/0'"), (40_000, "/0'"), (30_000, "/1")]
+            .iter()
+            .map(|(n, comp)| CliCase {
+                args_hex: ["export", "--mnemonic", phrase.as_str(), "--hd-path", &format!("m{}", comp.repeat(*n))].iter().map(|a| hex_lower(a.as_bytes())).collect(),
+                env: vec![],
+                stdin_hex: String::new(),
+                plain: false,
+                files: vec![],
+            })
+            .collect();
+        ctx.run_cases("cli", &deep_cli[..t.pick(2, 3)], judge_cli);
         if t == Tier::Thorough {
             if CLI_PLAIN.get().map(|p| p.exists()).unwrap_or(false) {
                 ctx.run_prop("cli-plain", 10_000, || crate::gen::tape(1200).prop_map(|t| CliCase { plain: true, ..gen_cli(t) }), judge_cli);
